@@ -364,6 +364,13 @@ func e3() {
 								violate("oversized-body-forwarded", map[string]any{"route": rt.name, "chunked": chunked}, cell+fmt.Sprintf(": the backend received %d body bytes; client: %s", len(q.Body), r), rp)
 							}
 						}
+						// "no request whose body exceeds the maximum is forwarded": not its first bytes either
+						if rt.name != "anthropic" && len(reqs) > 0 {
+							violate("oversized-request-dispatched", map[string]any{"route": rt.name, "chunked": chunked}, cell+fmt.Sprintf(": the backend was sent the request (it read %d body bytes, read error %q); client: %s", len(reqs[0].Body), reqs[0].ReadErr, r), rp)
+						}
+						if r.Status >= 200 && r.Status < 300 {
+							violate("oversized-request-answered-2xx", map[string]any{"route": rt.name, "chunked": chunked}, cell+": client got "+r.String(), rp)
+						}
 						if rt.name == "anthropic" {
 							if len(reqs) > 0 {
 								violate("oversized-body-forwarded", map[string]any{"route": rt.name, "chunked": chunked}, cell+": translated and forwarded", rp)
